@@ -40,6 +40,8 @@ type Program struct {
 	Plan   map[string]interface{} `json:"plan"`
 	// unparse-only
 	Aliases map[string]bool `json:"-"` // namespaces referred to through {alias}
+	// Prologue: texts written before {namespace} of the 1st, 2nd, ... file
+	Prologue []string `json:"-"`
 }
 
 // Constructors for commands.
@@ -150,6 +152,11 @@ func UnparseProgram(p *Program, st Style) []File {
 		sort.Strings(names)
 		var b strings.Builder
 		nsa := p.Bundle[names[0]].NsA
+		// what may precede {namespace}: comments of every kind and blank lines
+		// (a licence header); chosen per file from the program's prologue list
+		if len(p.Prologue) > 0 {
+			b.WriteString(p.Prologue[len(files)%len(p.Prologue)])
+		}
 		b.WriteString("{namespace " + ns)
 		if nsa != "" {
 			b.WriteString(` autoescape="` + nsa + `"`)
